@@ -408,7 +408,8 @@ def observe(path, locations=False):
             dump[p] = dump[p] + (ie.file_id.decode(),)
         obs["tree"] = dump
         st = sorted((c.file_id.decode(), tuple(c.path), c.changed_content, tuple(c.versioned), tuple(c.kind), tuple(c.executable))
-                    for c in wt.iter_changes(wt.basis_tree()))
+                    for c in wt.iter_changes(wt.basis_tree())
+                    if not (c.path[0] is None and c.path[1] == ""))        # (the root of a tree that was never committed)
         parents = wt.get_parent_ids()
         obs["status"] = dict(changes=st, parents=[p.decode() for p in parents],
                              unknowns=sorted(wt.unknowns()),
